@@ -137,7 +137,7 @@ def redc_lines(rng, n, m, reps):
 def gen(tier, rng):
     quick = tier == 'quick'
     maxlen = 64 if quick else 256
-    hreps = 5 if quick else 16
+    hreps = 5 if quick else 40
     consts = const_table()
 
     # ---- parameter sets: every constructor, every listed modulus
@@ -186,22 +186,25 @@ def gen(tier, rng):
     # ---- histories
     for rep in range(hreps):
         for n in FIXED:
+            if quick and n >= 16 and rep >= 2: continue        # wide histories: two rounds are enough in quick
             lim = maxlen if n <= 8 else max(16, maxlen // (n // 4))
             for m in moduli(rng, n):
                 for kind in ('dyn', 'dynv'):
                     yield hist_line(rng, kind, n, m, rng.randrange(4, lim + 1) if rep or rng.randrange(3) else lim)
         for n in range(1, 34):
+            if quick and n > 12 and rep >= 2: continue
             lim = maxlen if n <= 8 else max(16, maxlen // (n // 4))
             for m in moduli(rng, n):
                 kind = rng.choice(['boxed', 'boxedv'])
                 yield hist_line(rng, kind, n, m, rng.randrange(4, lim + 1) if rep or rng.randrange(3) else lim)
         for n, m in consts:
+            if quick and n >= 16 and rep >= 2: continue
             lim = maxlen if n <= 8 else max(16, maxlen // (n // 4))
             for _ in range(2):
                 yield hist_line(rng, 'const', n, m, rng.randrange(4, lim + 1))
     # short histories, many: every prefix of small width gets dense coverage
-    for _ in range(8000 if quick else 100000):
-        n = rng.choice([1, 1, 2, 2, 3, 4])
+    for _ in range(8000 if quick else 250000):
+        n = rng.choice([1, 1, 2, 2, 3, 4] if quick else [1, 1, 2, 2, 3, 4, 6, 8])
         m = rng.choice(moduli(rng, n))
         kind = rng.choice(['dyn', 'dynv', 'boxed', 'boxedv'])
         yield hist_line(rng, kind, n, m, rng.randrange(3, 17))
